@@ -30,6 +30,202 @@ def ret_is(text, names=None):
     return K.ret_is(text, names)
 
 
+# ---------------------------------------------------------------------------------------------
+# flow-sensitive value provenance: what a place holds *at a program point*
+
+class FlowSym(Sym):
+    """Sym whose locals are resolved through the definitions that reach the point of use (reaching definitions over
+    the blocks reachable from the entry).  A local assigned on several paths (`let x; if c { x = a } else { x = b }`,
+    the return slot of a helper folded into its caller, a block duplicated by jump threading) is followed through the
+    one definition that can reach the use; when several different values reach it the term stays an opaque `$var`
+    exactly as in the position-insensitive Sym."""
+
+    def __init__(self, body, max_depth=60):
+        super().__init__(body, max_depth)
+        self._pos = None
+        self._live = body.reachable(0)
+        self._dmemo = {}
+        self._rmemo = {}
+
+    def at(self, bb, si):
+        self._pos = (bb, len(self.body.blocks[bb]["stmts"]) if si == "term" else si)
+        return self
+
+    def _idx(self, d):
+        return len(self.body.blocks[d[0]]["stmts"]) if d[1] == "term" else d[1]
+
+    def _reaching(self, l, pos):
+        key = (l, pos)
+        if key in self._rmemo:
+            return self._rmemo[key]
+        ds = self._defs.get(l, [])
+        by_block = {}
+        for d in ds:
+            by_block.setdefault(d[0], []).append(d)
+        out = []
+        bb, si = pos
+        here = [d for d in by_block.get(bb, []) if self._idx(d) < si]
+        if here:
+            out.append(max(here, key=self._idx))
+        else:
+            seen = set()
+            work = [p for p in self.body.preds(bb)]
+            while work:
+                p = work.pop()
+                if p in seen or p not in self._live or self.body.is_cleanup(p):
+                    continue
+                seen.add(p)
+                # a call defines its destination only on the edge of normal return
+                cand = [d for d in by_block.get(p, [])]
+                if cand:
+                    out.append(max(cand, key=self._idx))
+                else:
+                    work.extend(self.body.preds(p))
+        self._rmemo[key] = out
+        return out
+
+    def _defval(self, l, d, depth):
+        key = (l, d[0], d[1])
+        if key in self._dmemo:
+            return self._dmemo[key]
+        self._dmemo[key] = ("unknown", "cycle")
+        save = self._pos
+        self._pos = (d[0], self._idx(d))
+        try:
+            if d[2] == "assign":
+                r = self.rvalue(d[3]["rv"], depth + 1)
+            elif d[2] == "call":
+                r = self.call(d[3], d[0], depth + 1)
+            elif d[2] == "yield":
+                r = ("yield",)
+            else:
+                r = ("var", self.body.local_name(l) or "_%d" % l, l)
+        finally:
+            self._pos = save
+        self._dmemo[key] = r
+        return r
+
+    def local(self, l, depth=0):
+        if self._pos is None:
+            return super().local(l, depth)
+        b = self.body
+        if depth > self.max_depth:
+            return ("unknown", "depth")
+        if 1 <= l <= b.arg_count:
+            return ("param", b.local_name(l) or "_%d" % l)
+        ds = self._reaching(l, self._pos)
+        if not ds:
+            return ("unknown", "undef _%d" % l)
+        vals = {}
+        for d in ds:
+            v = self._defval(l, d, depth)
+            vals.setdefault(render(strip_deep(v)), v)
+        if len(vals) == 1:
+            r = next(iter(vals.values()))
+            if l in self._mutb and r[0] not in ("closure", "var"):
+                r = ("mvar", b.local_name(l) or "_%d" % l, l, r)
+            return r
+        return ("var", b.local_name(l) or "_%d" % l, l)
+
+
+def peel_try(t):
+    """Look through the success projections of `?` and of freshly built Ok/Some values:
+    `Try::branch(x)↓Continue.0` is `x↓Ok.0` (`x↓Some.0` for an Option) and `Ok(v)↓Ok.0` is `v`."""
+    t = strip(t)
+    k = t[0]
+    if k == "field":
+        base = peel_try(t[1])
+        if base[0] == "variant":
+            inner = strip(base[1])
+            if inner[0] == "agg" and str(inner[2]) == str(base[2]):
+                for fn_, v in inner[3]:
+                    if fn_ == t[2]:
+                        return v
+        return ("field", base, t[2], t[3] if len(t) > 3 else None)
+    if k == "variant":
+        base = peel_try(t[1])
+        if t[2] == "Continue" and base[0] == "call" and (base[3] or {}).get("name") == "branch" \
+                and (base[3] or {}).get("trait") == "std::ops::Try" and len(base[2]) == 1:
+            res = (base[3] or {}).get("res") or ""
+            which = "Ok" if "result::Result" in res else ("Some" if "option::Option" in res else None)
+            if which:
+                return peel_try(("variant", base[2][0], which))
+        return ("variant", base, t[2])
+    if k == "call":
+        return ("call", t[1], tuple(peel_try(a) for a in t[2]), t[3])
+    if k == "agg":
+        return ("agg", t[1], t[2], tuple((f_, peel_try(v)) for f_, v in t[3]))
+    if k in ("discr", "len"):
+        return (k, peel_try(t[1]))
+    if k == "mvar":
+        return ("mvar", t[1], t[2], peel_try(t[3]))
+    return t
+
+
+_CMP_CALLS = ("eq", "ne", "cmp", "partial_cmp", "lt", "le", "gt", "ge", "hash")
+_CMP_BINOPS = ("Eq", "Ne", "Lt", "Le", "Gt", "Ge", "Cmp")
+
+
+def compared_operands(f, b, subst=None, depth=0):
+    """What the comparison / hashing steps of `b` look at: one list of operand texts per step (calls of eq / cmp /
+    hash … and primitive comparisons), α-normalised (`self`, %2 = the other parameter).  Tuples are taken apart (a
+    tuple compares / hashes exactly its components), and closures built in `b` (`then_with(|| …)`, `map`, …) are read
+    too, with their captures standing for the values captured."""
+    from engine import sym as symmod
+    sy = K.sym_of(b)
+    name = (lambda s: s) if subst is not None else (lambda s: K.alpha(s, b))
+
+    def texts(t):
+        t = strip_deep(t)
+        if t[0] == "agg" and t[1] == "tuple":
+            return [x for _, v in t[3] for x in texts(v)]
+        return [name(render(t))]
+
+    out = []
+    closures = {}
+
+    def scan():
+        for c in b.calls():
+            if b.is_cleanup(c.bb) or not c.is_static:
+                continue
+            terms = K.arg_terms(c)
+            if c.name in _CMP_CALLS and 1 <= len(terms) <= 2:
+                out.append([x for t in terms[:2] for x in texts(t)])
+            for t in terms:
+                for x in walk(t):
+                    if x[0] == "closure":
+                        closures.setdefault(x[1], x)
+        for blk in b.blocks:
+            if blk.get("cleanup"):
+                continue
+            for st in blk["stmts"]:
+                if st["s"] == "assign" and st["rv"]["r"] == "bin" and st["rv"]["bop"] in _CMP_BINOPS:
+                    out.append([x for o in (st["rv"]["a"], st["rv"]["b"]) for x in texts(sy.operand(o))])
+    if subst is not None:
+        with symmod.substituting(subst):
+            scan()
+    else:
+        scan()
+    if depth < 3:
+        for d, ct in sorted(closures.items()):
+            if subst is not None:
+                with symmod.substituting(subst):
+                    cb, m = K.closure_env(f, ct, "<element>")
+            else:
+                cb, m = K.closure_env(f, ct, "<element>")
+            if cb is None:
+                out.append(["closure %s not found" % d])
+                continue
+            m = {k: (name(v) if k[0] == "upvar" else v) for k, v in m.items()}
+            out.extend(compared_operands(f, cb, subst=m, depth=depth + 1))
+    return out
+
+
+def value_text(body, fs, rv, bb, si):
+    """α-normalised, `?`-peeled rendering of what the rvalue at (bb, si) evaluates to there."""
+    return peel_try(strip_deep(fs.at(bb, si).rvalue(rv)))
+
+
 def table(ctx, f, fn, rows, sym_names=None, assume=None, label=None, inline=None, path_filter=None):
     b = f.body(fn)
     if b is None:
@@ -96,20 +292,23 @@ def run(ctx):
                 ctx.missing("R-FLOW", short(fn), fn)
                 continue
             ctx.saw_fn(fn)
-            s = K.sym_of(b)
+            # what the two fields hold at the construction site, whichever way the values got there (`?`, a match that
+            # returns the error, a local assigned in both arms, a checking helper that hands its argument back):
+            # parameters are numbered (%1 = the address, %2 = the length), `?` projections are looked through
+            fs = FlowSym(b)
             mine = [x for x in sites if x[0] is b]
-            okf = False
+            okf = bool(mine)
             detail = None
             for bd, bi, si, st in mine:
-                t = s.rvalue(st["rv"])
-                flds = {k: render(strip_deep(v)) for k, v in t[3]}
+                t = value_text(b, fs, st["rv"], bi, si)
+                flds = {k: K.alpha(render(v), b) for k, v in t[3]} if t[0] == "agg" else {}
                 detail = flds
-                fl_ok = flds.get("family_and_len") == "Try::branch(FamilyAndLen::new_%s(len))↓Continue.0" % fam
+                fl_ok = flds.get("family_and_len") == "FamilyAndLen::new_%s(%%2)↓Ok.0" % fam
                 if relaxed:
-                    bits_ok = flds.get("bits") == "Bits::clear_host(Bits::from_%s(addr), len)" % fam
+                    bits_ok = flds.get("bits") == "Bits::clear_host(Bits::from_%s(%%1), %%2)" % fam
                 else:
-                    bits_ok = flds.get("bits") == "Bits::from_%s(addr)" % fam
-                okf = fl_ok and bits_ok
+                    bits_ok = flds.get("bits") == "Bits::from_%s(%%1)" % fam
+                okf = okf and fl_ok and bits_ok
             ctx.ob("R-FLOW", "%s:fields" % short(fn), okf,
                    "%s stores the checked family/length of the same family and the %s address bits"
                    % (short(fn), "host-cleared" if relaxed else "given"), where=b.loc, detail=detail)
@@ -228,27 +427,20 @@ def run(ctx):
             continue
         ctx.saw_fn(b.name)
         got = set()
-        for c in b.calls():
-            if b.is_cleanup(c.bb) or not c.is_static:
-                continue
-            if c.name in ("eq", "ne", "cmp", "hash", "partial_cmp"):
-                extra_ops = []
-                for a in K.arg_renders(c)[:2] + extra_ops:
-                    m = re.match(r"^(MaxLenPrefix::prefix|MaxLenPrefix::resolved_max_len)\((self|other)\.prefix\)$", a) \
-                        or re.match(r"^()(self|other)\.asn$", a)
-                    if m:
-                        got.add(a.replace("other", "self"))
-                    elif a not in ("state",):
-                        got.add("?" + a)
-        sy = K.sym_of(b)
-        for blk in b.blocks:
-            for st in blk["stmts"]:
-                if st["s"] == "assign" and st["rv"]["r"] == "bin" and st["rv"]["bop"] in ("Eq", "Ne", "Lt", "Le", "Gt", "Ge"):
-                    for o in (st["rv"]["a"], st["rv"]["b"]):
-                        a = render(strip_deep(sy.operand(o)))
-                        m = re.match(r"^(MaxLenPrefix::prefix|MaxLenPrefix::resolved_max_len)\((self|other)\.prefix\)$", a) \
-                            or re.match(r"^()(self|other)\.asn$", a)
-                        got.add(a.replace("other", "self") if m else "?" + a)
+        for ops in compared_operands(f, b):
+            if meth == "hash":
+                ops = [a for a in ops if a != "%2"]          # the hasher itself
+            sides = set()
+            for a in ops:
+                m = re.match(r"^(MaxLenPrefix::prefix|MaxLenPrefix::resolved_max_len)\((self|%2)\.prefix\)$", a) \
+                    or re.match(r"^()(self|%2)\.asn$", a)
+                if m:
+                    got.add(a.replace("%2", "self"))
+                    sides.add(a.replace("%2", "self"))
+                else:
+                    got.add("?" + a)
+            if len(sides) > 1:
+                got.add("?compares %s" % " with ".join(sorted(sides)))        # a projection is compared with its own counterpart
         projs[meth] = got
     want = {"MaxLenPrefix::prefix(self.prefix)", "MaxLenPrefix::resolved_max_len(self.prefix)", "self.asn"}
     for meth, got in projs.items():
